@@ -258,7 +258,7 @@ class JudgeDominant:
         if why:
             return ctx.ood("dominant_bpm", why)
         pts = tempo_points(m)
-        feat = dict(game=game_of(m), n_tempo=len(pts), tempo_sorted=pts == sorted(pts))
+        feat = dict(tempo_sorted=pts == sorted(pts))
         wit = dict(tempo=pts[:40], last_offset=max(all_offsets(m)), last_tail=max([0] + hold_tails(m)))
         if exc is not None:
             return ctx.violate("C19", "dominant_bpm", "raises", f"dominant_bpm raised {type(exc).__name__}: {exc}", dict(wit, tb=core.short_tb(exc)), feat)
@@ -268,7 +268,7 @@ class JudgeDominant:
         if not any(feq(result, b, 1e-12, 0) for b in acc):
             return ctx.violate("C19", "dominant_bpm", "maximal", f"returned {float(result)}, maximal-active-time bpm(s): {sorted(acc)}", wit, feat)
         ctx.held("dominant_bpm", "maximal")
-        ctx.state("dominant.case", (feat["game"], min(len(pts), 4), feat["tempo_sorted"], len(acc) > 1))
+        ctx.state("dominant.case", (game_of(m), min(len(pts), 4), feat["tempo_sorted"], len(acc) > 1))
 
 
 def sv_points(m):
@@ -313,8 +313,7 @@ class JudgeScroll:
         svs = sv_points(m)
         if svs is not None and any(not math.isfinite(x) for _, x in svs):
             return ctx.ood("scroll_speed", "nan_multiplier")
-        feat = dict(game=game_of(m), n_tempo=len(pts), n_sv=len(svs or []), override=ov is not None, tempo_sorted=pts == sorted(pts),
-                    sv_sorted=(svs or []) == sorted(svs or []))
+        feat = dict(override=ov is not None, tempo_sorted=pts == sorted(pts), has_sv_list=svs is not None)
         wit = dict(tempo=pts[:40], svs=(svs or [])[:40], override=ov)
         if exc is not None:
             return ctx.violate("C19", "scroll_speed", "raises", f"scroll_speed raised {type(exc).__name__}: {exc}", dict(wit, tb=core.short_tb(exc)), feat)
@@ -344,7 +343,7 @@ class JudgeScroll:
         if fails:
             return ctx.violate("C19", "scroll_speed", "value", list(fails.values())[0], wit, feat)
         ctx.held("scroll_speed", "value", 1)
-        ctx.state("scroll.case", (feat["game"], min(len(pts), 3), min(len(svs or []), 3), ov is not None))
+        ctx.state("scroll.case", (game_of(m), min(len(pts), 3), min(len(svs or []), 3), ov is not None))
 
 
 class JudgeNormalize:
@@ -363,7 +362,7 @@ class JudgeNormalize:
         if ov is not None and not (ov > 0):
             return ctx.ood("sv_normalize", "non_positive_override")
         pts = tempo_points(m)
-        feat = dict(game=game_of(m), n_tempo=len(pts), override=ov is not None, tempo_sorted=pts == sorted(pts))
+        feat = dict(override=ov is not None, tempo_sorted=pts == sorted(pts))
         wit = dict(tempo=pts[:40], override=ov)
         if exc is not None:
             return ctx.violate("C19", "sv_normalize", "raises", f"sv_normalize raised {type(exc).__name__}: {exc}", dict(wit, tb=core.short_tb(exc)), feat)
@@ -430,8 +429,7 @@ class JudgeHitsoundCopy:
                 per_t_files[n["t"]] += 1
         slots = Counter(n["t"] for n in t_notes)
         feat = dict(target_carries_own_sounds=not tgt_clean,
-                    overflow_named_samples_max=max([per_t_files[t] - slots.get(t, 0) for t in per_t_files] + [0]),
-                    n_src=len(s_notes), n_tgt=len(t_notes))
+                    overflow_named_samples=min(3, max([per_t_files[t] - slots.get(t, 0) for t in per_t_files] + [0])))
         wit = dict(src=[(n["t"], n["hs"], n["file"], n["vol"]) for n in s_notes if n["hs"] or n["file"]][:60],
                    tgt=[(n["t"], n["col"], n["len"], n["hs"], n["file"]) for n in t_notes][:60])
         if exc is not None:
@@ -476,6 +474,17 @@ class JudgeHitsoundCopy:
                 else:
                     bad = ("named_sample_lost", f"at {t}: source named sample(s) {dict(lost)} neither on a result note nor an event sample")
                 break
+            # (5b) a copied sound keeps the volume it had in the source
+            def vol_ok(rv, sv):
+                return rv == sv or (rv == 0 and sv <= 0)
+            for n in rn:
+                for name, bit in SOUNDS:
+                    if n["hs"] & bit and not any(x["hs"] & bit and vol_ok(n["vol"], x["vol"]) for x in sn):
+                        bad = ("volume", f"at {t}: result note carries a {name} at volume {n['vol']}, the source has it at {[x['vol'] for x in sn if x['hs'] & bit]}")
+                if n["file"] and not any(x["file"] == n["file"] and vol_ok(n["vol"], x["vol"]) for x in sn):
+                    bad = ("volume", f"at {t}: result note carries {n['file']} at volume {n['vol']}, the source has it at {[x['vol'] for x in sn if x['file'] == n['file']]}")
+            if bad:
+                break
             # (3) capacity: something dropped from the notes => every note at t is used
             dropped_default = any(sum(1 for n in sn if n["hs"] & bit) > sum(1 for n in rn if n["hs"] & bit) for _, bit in SOUNDS)
             dropped_file = bool(Counter(n["file"] for n in sn if n["file"]) - Counter(n["file"] for n in rn if n["file"]))
@@ -485,7 +494,7 @@ class JudgeHitsoundCopy:
         if bad:
             return ctx.violate("C18", "hitsound_copy", bad[0], bad[1], wit, feat)
         ctx.held("hitsound_copy", "clauses")
-        ctx.state("hitsound.case", (feat["overflow_named_samples_max"] > 0, not tgt_clean, len(t_notes) > 0,
+        ctx.state("hitsound.case", (feat["overflow_named_samples"] > 0, not tgt_clean, len(t_notes) > 0,
                                     any(n["len"] is not None for n in t_notes), any(n["len"] is not None for n in s_notes)))
 
 
